@@ -183,3 +183,121 @@ def run_site(spec: dict) -> dict:
 def run(spec: dict) -> dict:
     """worker entry point: dispatch on spec["kind"] (default: history)"""
     return run_site(spec) if spec.get("kind") == "site" else run_hist(spec)
+
+
+# --------------------------------------------------------------------------------------------------
+# argument-form ladder: the same VALUE handed over as different Python objects
+SCALAR_FORMS = ["int", "float", "np.int64", "np.int32", "np.float64", "np.float32", "0d", "torch64", "torch32"]
+CONTAINER_FORMS = ["tuple", "ndarray", "tensor"]
+SHAPE_FORMS = ["list", "size", "ndarray"]
+MODE_FORMS = ["lower", "upper"]
+
+
+def scalar_form(value, form: str):
+    """`value` (a Python int or float) as the object `form` names; None when the form cannot hold the value exactly
+    in a way that keeps the comparison meaningful (an int form for a non-integer value)"""
+    import numpy as np
+    import torch
+
+    integral = float(value) == int(value)
+    if form == "int":
+        return int(value) if integral else None
+    if form == "float":
+        return float(value)
+    if form in ("np.int64", "np.int32"):
+        return getattr(np, form[3:])(int(value)) if integral else None
+    if form in ("np.float64", "np.float32"):
+        return getattr(np, form[3:])(value)
+    if form == "0d":
+        return np.array(int(value) if isinstance(value, int) else float(value))
+    if form == "torch64":
+        return torch.tensor(float(value), dtype=torch.float64) if not isinstance(value, int) else torch.tensor(int(value))
+    if form == "torch32":
+        return torch.tensor(float(value), dtype=torch.float32)
+    raise ValueError(form)
+
+
+def _digest(m, cols) -> dict:
+    import numpy as np
+    import torch
+
+    a = m.numpy() if isinstance(m, torch.Tensor) else np.asarray(m)
+    return {"ok": True, "shape": list(a.shape), "dtype": str(m.dtype), "rows": G.pack_rows(a, cols) if a.size % max(cols, 1) == 0 else None}
+
+
+def run_forms(spec: dict) -> dict:
+    """one generator class (the 14 in scope and the bases Random / Equispaced / Magic), one canonical configuration
+    (Python ints / floats in lists, enum mode, tuple shape); every argument in every other form.  Result: per form key
+    the ACS and the mask (or the exception).  Keys: `canonical`, `cf=<form>`, `acc=<form>`, `cfs=<container>`,
+    `accs=<container>`, `shape=<form>`, `mode=<form>`."""
+    import boot  # noqa: F401
+    import numpy as np
+    import torch
+    from direct.common import subsample as S
+    from direct.types import MaskFuncMode
+
+    name, mode = spec["gen"], spec["mode"]
+    accs, cfs = list(spec["acc"]), (None if spec.get("cf") is None else list(spec["cf"]))
+    shape, seed = tuple(spec["shape"]), dec_seed(spec.get("seed"))
+    cols = shape[-2]
+    cls = getattr(S, name + "MaskFunc")
+
+    def build(accs_, cfs_, mode_):
+        kw = dict(accelerations=accs_, **spec.get("extra", {}))
+        if cfs_ is not None:
+            kw["center_fractions"] = cfs_
+        if not G.is_kt(name):
+            kw["mode"] = mode_
+        return cls(**kw)
+
+    def both(f, shp):
+        out = {}
+        for key, racs in (("acs", True), ("mask", False)):
+            if key == "mask" and not spec.get("masks", True):
+                continue
+            try:
+                out[key] = _digest(f(shp, seed=seed, return_acs=racs), cols)
+            except BaseException as e:  # noqa: BLE001
+                if isinstance(e, (KeyboardInterrupt, SystemExit)):
+                    raise
+                out[key] = {"ok": False, "err": type(e).__name__, "msg": str(e)[:120]}
+        return out
+
+    def attempt(mk, shp=shape):
+        try:
+            f = mk()
+        except BaseException as e:  # noqa: BLE001
+            if isinstance(e, (KeyboardInterrupt, SystemExit)):
+                raise
+            r = {"ok": False, "err": type(e).__name__, "msg": str(e)[:120], "stage": "construct"}
+            return {"acs": r, "mask": r}
+        return both(f, shp)
+
+    enum = MaskFuncMode(mode)
+    res = {"canonical": attempt(lambda: build(accs, cfs, enum))}
+    conts = {"tuple": tuple, "ndarray": np.array, "tensor": torch.tensor}
+    for form in SCALAR_FORMS:
+        if cfs is not None:
+            vals = [scalar_form(v, form) for v in cfs]
+            if all(v is not None for v in vals) and any(type(v) is not type(c) for v, c in zip(vals, cfs)):
+                res[f"cf={form}"] = attempt(lambda vals=vals: build(accs, vals, enum))
+        vals = [scalar_form(v, form) for v in accs]
+        if all(v is not None for v in vals) and any(type(v) is not type(c) for v, c in zip(vals, accs)):
+            res[f"acc={form}"] = attempt(lambda vals=vals: build(vals, cfs, enum))
+    for cname, c in conts.items():
+        if cfs is not None:
+            res[f"cfs={cname}"] = attempt(lambda c=c: build(accs, c(cfs), enum))
+        res[f"accs={cname}"] = attempt(lambda c=c: build(c(accs), cfs, enum))
+    shapes = {"list": list(shape), "size": torch.Size(shape), "ndarray": np.array(shape)}
+    for sname, shp in shapes.items():
+        res[f"shape={sname}"] = attempt(lambda: build(accs, cfs, enum), shp)
+    if not G.is_kt(name):
+        for mname, mv in (("lower", mode), ("upper", mode.upper())):
+            res[f"mode={mname}"] = attempt(lambda mv=mv: build(accs, cfs, mv))
+    return {"ok": True, "forms": res}
+
+
+def run(spec: dict) -> dict:  # noqa: F811 - extends the dispatcher above
+    """worker entry point: dispatch on spec["kind"] (default: history)"""
+    kind = spec.get("kind")
+    return run_site(spec) if kind == "site" else run_forms(spec) if kind == "forms" else run_hist(spec)
